@@ -188,3 +188,30 @@ B('d_b_register_never_run', ['C09'], 'R09.d', (CE, "\n_register_templates()\n", 
 B('d_b_fill_helper_raw_reference', ['C09'], 'R09.d', (CE, _FILL_OLD, _FILL_NEW.replace("STYLE_SCRIPT_STUFF)\n\n\nHTML_500", "STYLE_SCRIPT_STUFF + '{exc_value|s}')\n\n\nHTML_500")))
 B('d_b_to_json_other_dict', ['C09'], 'R09.e',
   (E, "        return encoder.encode(self.to_dict())", "        fields = {'code': self.code}\n        return encoder.encode(fields)"))
+
+# ------------------------------------------------------------------ more shapes
+_ISE_TO_DICT = ("        ret = super(InternalServerError, self).to_dict()\n"
+                "        ret['exc_info'] = glom(self, T.exc_info.to_dict(), skip_exc=Exception)\n"
+                "        return ret\n")
+_STATIC_HELPER = ("    @staticmethod\n"
+                  "    def _safe_text(value):\n"
+                  "        if value is None:\n"
+                  "            return ''\n"
+                  "        try:\n"
+                  "            escaped = html_escape(value, True)\n"
+                  "        except Exception:\n"
+                  "            escaped = html_escape(repr(value), True)\n"
+                  "        return escaped\n\n")
+T('d_t_escaped_comp_static_helper', ['C09', 'C08'],
+  (E, "    def to_escaped_dict(self):\n" + _ESC_LOOP,
+      _STATIC_HELPER + "    def to_escaped_dict(self):\n        return {k: self._safe_text(v) for k, v in self.to_dict().items()}\n"))
+T('d_t_to_dict_merge_return', ['C09'],
+  (E, _ISE_TO_DICT, "        return dict(super(InternalServerError, self).to_dict(),\n"
+                    "                    exc_info=glom(self, T.exc_info.to_dict(), skip_exc=Exception))\n"))
+B('d_b_to_dict_merge_replaces_code', ['C09'], 'R09.e',
+  (E, _ISE_TO_DICT, "        return dict(super(InternalServerError, self).to_dict(), code=500,\n"
+                    "                    exc_info=glom(self, T.exc_info.to_dict(), skip_exc=Exception))\n"))
+B('d_b_static_helper_raw_fallback', ['C09'], 'R09.c',
+  (E, "    def to_escaped_dict(self):\n" + _ESC_LOOP,
+      _STATIC_HELPER.replace("escaped = html_escape(repr(value), True)", "escaped = repr(value)") +
+      "    def to_escaped_dict(self):\n        return {k: self._safe_text(v) for k, v in self.to_dict().items()}\n"))
